@@ -96,4 +96,27 @@ def SameSep (D D' : LV) : Prop :=
   ∀ (Z : Nat → Prop) (a b : Nat), (∀ z, Z z → D.Observed z) → D.Observed a → D.Observed b → a ≠ b →
     (D'.DConn Z a b ↔ D.DConn Z a b)
 
+/-! ### m-connection in the projected mixed graph (walk formulation)
+
+The same walk discipline on a mixed graph `G` with directed and bidirected edges: an inner node is a
+collider when both walk edges have an arrowhead at it (`→ x ←`, `→ x ↔`, `↔ x ←`, `↔ x ↔`).
+`MixedReach G Z a x head`: a walk from `a` has arrived at `x` along an edge with an arrowhead at `x`
+(`head = true`) or a tail at `x` (`head = false`).  Ancestors are taken along directed edges only. -/
+
+def AnZMixed (G : MG Nat) (Z : Nat → Prop) (x : Nat) : Prop := ∃ z, Z z ∧ Relation.ReflTransGen G.DiEdge x z
+
+inductive MixedReach (G : MG Nat) (Z : Nat → Prop) (a : Nat) : Nat → Bool → Prop
+  | startDown {c : Nat} : G.DiEdge a c → MixedReach G Z a c true
+  | startUp {p : Nat} : G.DiEdge p a → MixedReach G Z a p false
+  | startBi {c : Nat} : G.BiEdge a c → MixedReach G Z a c true
+  | chainDown {x c : Nat} : MixedReach G Z a x true → ¬ Z x → G.DiEdge x c → MixedReach G Z a c true
+  | colliderUp {x p : Nat} : MixedReach G Z a x true → AnZMixed G Z x → G.DiEdge p x → MixedReach G Z a p false
+  | colliderBi {x y : Nat} : MixedReach G Z a x true → AnZMixed G Z x → G.BiEdge x y → MixedReach G Z a y true
+  | chainUp {x p : Nat} : MixedReach G Z a x false → ¬ Z x → G.DiEdge p x → MixedReach G Z a p false
+  | fork {x c : Nat} : MixedReach G Z a x false → ¬ Z x → G.DiEdge x c → MixedReach G Z a c true
+  | tailBi {x y : Nat} : MixedReach G Z a x false → ¬ Z x → G.BiEdge x y → MixedReach G Z a y true
+
+/-- `a` and `b` are m-connected given `Z` in the mixed graph `G` -/
+def MConnMixed (G : MG Nat) (Z : Nat → Prop) (a b : Nat) : Prop := ∃ s, MixedReach G Z a b s
+
 end Y0.LV
